@@ -361,3 +361,20 @@ Proof.
   - intros _. pose proof (geq_le_length (pr_i proc0) fs) as H1.
     pose proof (undone_le_length (repeat proc0 k)) as H2. rewrite repeat_length in H2. lia.
 Qed.
+
+(* ---- a run started through main(): without --tempdir a NEW directory is created whatever the object held
+   before (process_args assigns temp_dir unconditionally) *)
+Lemma main_fresh :
+  forall before fs fuel, (length fs < fuel)%nat ->
+    exists n, main_temp_dir fuel (fun _ => None) fs before None = (Some (TNum n), Dir n (n :: fs)) /\
+              1 <= n /\ mem_z n fs = false /\ (forall m, 1 <= m < n -> mem_z m fs = true).
+Proof.
+  intros before fs fuel Hf.
+  destruct (ctd_lowest_free fs fuel Hf) as (n & E & H1 & H2 & H3).
+  exists n. unfold main_temp_dir, after_process_args. rewrite E. auto.
+Qed.
+
+Lemma main_given :
+  forall before fs fuel fault p,
+    main_temp_dir fuel fault fs before (Some p) = (Some (TGiven p), Dir 0 fs).
+Proof. reflexivity. Qed.
